@@ -167,6 +167,16 @@ theorem cert_decodes_to_record (i : CertInputs)
       some (Proofs.CertDecode.modelTbs i) :=
   Proofs.CertDecode.tbs_decodes i hinv hnp hc hsize
 
+/-- both validity fields decode to the same instant in the RFC 5280 form (C09 on the whole
+    certificate) -/
+theorem cert_time_fields_decode (i : CertInputs)
+    (hinv : certInvalid i.p i.issuer = none)
+    (hnp : certPanics i.p i.issuer = false)
+    (hc : ∀ e ∈ i.p.customExts, e.oid ∉ interpretedOids)
+    (hsize : (encode (tbsCertificate i.H i.p i.subject i.issuer)).length < 256 ^ 126) :
+    c09CertClauses i (encode (tbsCertificate i.H i.p i.subject i.issuer)) = [] :=
+  Proofs.CertDecode.c09_cert_clauses_hold i hinv hnp hc hsize
+
 /-- stated on the public entry point: whatever certificate `issueCert` returns, its embedded
     to-be-signed bytes decode to the request -/
 theorem issued_cert_decodes_to_request (cfg : Config) (i : CertInputs) (sign : Signer) (t : Asn1)
